@@ -58,7 +58,7 @@ def run(chk):
         ok = v is not None and (is_call(v, "crypto::sha256") or is_call(v, "sha256"))
         segs = flow.byte_segments(N.norm(v[2][0])) if ok else []
         sc = segs
-        good = len(sc) == 3 and sc[0] == ("const", b"WebAuthn PRF") and sc[1] == ("array", (("const", 0),)) and sc[2] == ("param", 1)
+        good = flow.merge_const_segments(sc) == [("bytes", b"WebAuthn PRF\x00"), ("param", 1)]
         chk.ob("R1 salt", "R1|make_salt|layout", bool(ok and good), where(ms), "make_salt = %s" % (flow.term_str(v) if v else "?"))
     cv = fn(p, "extensions::prf::convert_eval_to_ctap")
     if chk.require("R1 salt", "R1|convert_eval_to_ctap", cv, "passkey_client::extensions::prf", "convert_eval_to_ctap not found"):
@@ -74,7 +74,7 @@ def run(chk):
                 return t[2][0] == x
             if is_hash(t) and t[2]:
                 sg = flow.byte_segments(N.norm(t[2][-1]))
-                return len(sg) == 3 and sg[0] == ("const", b"WebAuthn PRF") and sg[1] == ("array", (("const", 0),)) and sg[2] == x
+                return flow.merge_const_segments(sg) == [("bytes", b"WebAuthn PRF\x00"), x]
             return False
         is_conv = lambda y: (is_call(y, "TryInto::try_into") or is_call(y, "TryFrom::try_from")) and has(y, lambda z: isinstance(z, tuple) and len(z) == 3 and z[0] == "field" and z[2] in ("first", "second"))
         n_h = n_p = 0
